@@ -26,7 +26,10 @@ RULE = ('specifications generated from one PRNG state: all 16 (+16 with an exist
         'obj += / -= scalar or ramp (bare ints in the axis unit / time objects), obj *= k, obj /= k, obj[i] = v} applied to ANY live '
         'object; every object re-observed after every command, then every object written to directly (buffer, attribute objects); '
         'every constructor case additionally changes its ARGUMENT objects in place after the construction and the result in place, '
-        're-inspecting the other side')
+        're-inspecting the other side; session 3: every bare number (length, duration, rate, interval, t0) is handed over as python int/float, '
+        'np.int16/32/64, np.float64 or a 0-d array (a function of its value), explicit falsy starts (0, 0.0, zero time objects) are always present, '
+        'an equal specification is rebuilt after the first result was changed in place, and for every program the np.shares_memory classes of '
+        'all live axes are compared with the buffer layer of the model (op heapparts)')
 ASSUMPTIONS = ['numpy int64/float64 arithmetic is IEEE-754 binary64 / two\'s complement (F64 model checked bit-for-bit in C01)',
                'np.arange(int64 start, stop, step) has length ceil(fl((stop-start)/step)) (monitored by op arange_len in this run)',
                'total extent |t0| + n*interval stays below 2^62 ps; intervals are at least 1 ps; lengths are python ints >= 1']
@@ -67,11 +70,37 @@ def tok(v):
     raise ValueError(v)
 
 
+def dress_num(x):
+    """session 3 (L3 / L1): the SAME number in another of the types a caller may hold it in — python int / float, numpy
+    scalars of several widths, 0-d arrays.  The choice is a function of the value, so every run, the replay and the
+    fresh-argument re-construction dress it alike; model and oracle see the number, whatever its type.
+    (float32 is left out here: scaling a float32 is C01's recorded finding.)"""
+    import zlib
+    if isinstance(x, bool) or not isinstance(x, (int, float)):
+        return x
+    h = zlib.crc32(repr(x).encode()) % 10
+    if isinstance(x, int):
+        if h == 4 or (h in (5, 7) and abs(x) >= 2**15):
+            return np.int64(x) if abs(x) < 2**63 else x
+        if h == 5:
+            return np.int16(x)
+        if h == 6:
+            return np.array(x, dtype=np.int64) if abs(x) < 2**63 else x
+        if h == 7:
+            return np.int32(x)
+        return x
+    if h == 5:
+        return np.float64(x)
+    if h == 6:
+        return np.array(x, dtype=np.float64)
+    return x
+
+
 def real(v):
     if v is None:
         return None
     if v[0] in ('i', 'f'):
-        return v[1]
+        return dress_num(v[1])
     if v[0] == 'T':
         t = ts().TimeArray(np.int64(v[2]), time_unit='ps')
         t.convert_unit(v[1])
@@ -217,6 +246,10 @@ def mutate_object(obj, r, undo):
                 mutate_object(obj.time, r, undo)
             except Exception:   # noqa
                 pass
+        elif isinstance(obj, np.ndarray) and not isinstance(obj, T.TimeInterface) and obj.dtype.kind in 'if' and obj.flags.writeable:
+            keep0 = obj.copy()     # a number handed over as a 0-d array: the caller's later write is not the axis' business
+            undo.append(lambda: obj.__setitem__(Ellipsis, keep0))
+            obj[...] = obj + 3
         elif isinstance(obj, np.ndarray) and isinstance(obj, T.TimeInterface):
             raw = obj.view(np.ndarray)
             keep, unit, cf = raw.copy(), obj.time_unit, getattr(obj, '_conversion_factor', None)
@@ -322,6 +355,11 @@ def construct_seq(build_args, construct, canon, line):
             if after != before:
                 bad = sorted(k for k in kw if after[k] != before[k])
                 return 'SEQ argument-follows-result %s: %s -> %s' % (bad[0], before[bad[0]][:80], after[bad[0]][:80])
+            # 7. (session 3, L2) an EQUAL specification, built after an object of that specification was changed in place,
+            # gives what the first construction gave (no grid / attribute object of the first one is handed out again)
+            o7, c7 = run(build_args(True))
+            if c7 != c1:
+                return 'SEQ fresh-after-inplace-differs first=%s built-after-the-first-was-changed-in-place=%s' % (c1, c7)
         return c1
 
 
@@ -407,6 +445,8 @@ def gen_t0(rng, unit, room):
     c = rng.random()
     if c < 0.35:
         return None
+    if c < 0.43:    # session 3 (L3): an EXPLICIT falsy start — 0, 0.0, a zero time object in any unit — is a start, not "no start"
+        return rng.choice([('i', 0), ('f', 0.0), ('T', rng.choice(UNITS), 0)])
     top = max(0, int(room // f))
     if c < 0.6:
         return ('i', rng.randint(-min(top, 1000), min(top, 1000)))
@@ -587,7 +627,7 @@ def make_uniform_case(sp, shared=None):
         if axis is not None:
             kw['data'] = real_axis(sp['axis'])
         if sp['length'] is not None:
-            kw['length'] = sp['length']
+            kw['length'] = dress_num(sp['length']) if isinstance(sp['length'], int) and 0 < sp['length'] < 2**31 else sp['length']
         for k, name in (('duration', 'duration'), ('rate', 'sampling_rate'), ('interval', 'sampling_interval'), ('t0', 't0')):
             if sp[k] is not None:
                 kw[name] = shared_real(sp[k], shared, fresh)
@@ -1082,6 +1122,12 @@ def run_heap(sp, line):
             out.append(st + ' ' + dump())
         while len(sh.origin) < len(axes):
             sh.origin.append(('unexpected-object', None))
+        # below object granularity (session 3): which axis objects view one sample buffer, and whether every buffer holds
+        # the grid its axis' attributes describe — compared with the buffer layer of the Lean store (`runHP`, op heapparts)
+        reps = []
+        for j, a in enumerate(axes):
+            reps.append(next((i for i in range(j) if np.shares_memory(np.asarray(axes[i]), np.asarray(a))), j))
+        run_heap.parts = 'ok B:%s W:%s' % (','.join(str(i) for i in reps), ','.join('1' if axis_obs(a)['affine'] else '0' for a in axes))
         try:
             poke = _poke(axes, series, stime, sh.origin)
         except Exception as e:  # noqa
@@ -1104,17 +1150,20 @@ def exercise_keep_lazy(obj, r):
     exercise(obj, r)
 
 
-def make_heap_case(sp):
+def make_heap_case(sp, parts=False):
     ax = call(lambda: real_axis(sp['axis']))
     if isinstance(ax, str):
         return None
     line = 'C02 heap %s %s' % (tok_axis_obj(ax), ';'.join(cmd_tok(c) for c in sp['prog']) or '-')
+    run_heap.parts = 'err not-run'
     try:
         impl, poke = run_heap(sp, line)
     except Exception as e:  # noqa
         from common import err_kind
         impl, poke = 'err ' + err_kind(e), []
-    return Case(line, impl, 'alias/program', meta={'kind': 'heap', 'spec': sp, 'poke': poke})
+    c = Case(line, impl, 'alias/program', meta={'kind': 'heap', 'spec': sp, 'poke': poke})
+    extra = Case(line.replace('C02 heap ', 'C02 heapparts ', 1), run_heap.parts, 'alias/buffers', meta={'kind': 'heapparts', 'spec': sp})
+    return [c, extra] if parts else c
 
 
 def judge_heap(c):
@@ -1364,6 +1413,9 @@ def cases(rng, tier, seed):
         sp = {'axis': (au, int(at0), int(adt), int(an)), 'm': int(m),
               't0': None if rng.random() < 0.6 else gen_t0(rng, {'default': 's', 'none': au}.get(su, su), LIM // 8),
               'unit': su}
+        if _ % 6 == 0:    # always present (L3): an explicit FALSY start (0, 0.0, zero time object) on an axis that starts elsewhere
+            sp['axis'] = (au, int(at0) if at0 else int(rng.choice([-1, 1]) * rng.randint(1, LIM // 8)), int(adt), int(an))
+            sp['t0'] = [('i', 0), ('f', 0.0), ('T', rng.choice(UNITS), 0)][(_ // 6) % 3]
         c = make_series_from_time_case(sp)
         if c:
             out.append(c)
@@ -1374,13 +1426,13 @@ def cases(rng, tier, seed):
         {'axis': ('s', 4250000000000, 333333333333, 5), 'prog': [('R', 0, 'none', None), ('I', 0, ('ar', 'i', 1, 1, 5)), ('R', 1, 'ms', 7), ('I', 1, ('mu', 3)), ('C', 2), ('I', 3, ('as', 't', -17))]},
     ]
     for sp in heap_corpus:
-        c = make_heap_case(sp)
+        c = make_heap_case(sp, parts=True)
         if c:
-            out.append(c)
+            out += c
     for _ in range(260 * k):
-        c = make_heap_case(gen_heap_spec(rng, tier))
+        c = make_heap_case(gen_heap_spec(rng, tier), parts=True)
         if c:
-            out.append(c)
+            out += c
     # --- Frequency, to_period, arange contract
     for _ in range(300 * k):
         fv = gen_rate(rng)
@@ -1558,6 +1610,18 @@ def check_case(c):
     if kind == 'heap':
         r = judge_heap(c)
         return fail(*r) if r else None
+    if kind == 'heapparts':
+        # the property's own account: every axis object has samples of its own, and they lie at t0 + i*interval
+        if not c.impl.startswith('ok B:'):
+            return fail('not-run', 'the program could not be run: ' + c.impl)
+        b, w = c.impl[5:].split(' W:')
+        reps = [int(x) for x in b.split(',')]
+        if reps != list(range(len(reps))):
+            j = next(j for j, x in enumerate(reps) if x != j)
+            return fail('shared-sample-buffer', 'axis object %d views the sample buffer of axis object %d (an in-place operator on one moves the other)' % (j, reps[j]))
+        if '0' in w.split(','):
+            return fail('samples-not-described-by-attributes', 'axis object %d: samples are not t0 + i*interval' % w.split(',').index('0'))
+        return None
     if c.impl.startswith('SEQ '):
         return fail('hidden-state/' + c.impl.split()[1], 'the result depends on what was done before with the same objects: ' + c.impl[:300])
     if kind == 'to_period_seq':
@@ -1766,6 +1830,9 @@ def replay(d):
         c = make_series_from_time_case(m['spec'])
     elif kind == 'heap':
         c = make_heap_case(m['spec'])
+    elif kind == 'heapparts':
+        c = make_heap_case(m['spec'], parts=True)
+        c = c[1] if c else None
     elif kind == 'tarray':
         xk, xv = m['x']
         x = {'i': lambda: int(xv), 'n': lambda: np.int64(xv), 'x': lambda: float(xv), 'M': lambda: np.zeros((2, 2), dtype=np.int64)}[xk]()
